@@ -64,6 +64,20 @@ func startRaftNode(id uint64, nodeIds []uint64, storage wal.WAL, logger *log.Ent
 	}
 
 	if len(nodeIds) > 0 {
+		// Bootstrap only a pristine log. A group that is started again over
+		// existing state (process restart) must resume from that state.
+		lastIndex, err := storage.LastIndex()
+		if err != nil {
+			return nil, err
+		}
+		hardState, _, err := storage.InitialState()
+		if err != nil {
+			return nil, err
+		}
+		if lastIndex > 0 || !etcdRaft.IsEmptyHardState(hardState) {
+			return etcdRaft.RestartNode(raftConfig), nil
+		}
+
 		var peers []etcdRaft.Peer
 		for _, nodeId := range nodeIds {
 			peers = append(peers, etcdRaft.Peer{ID: nodeId})
